@@ -916,6 +916,41 @@ func genHistory(g *vf.Rng, o histOpts) (calls []hcall, base string, dist map[str
 	return h.calls, base, h.dist
 }
 
+// flushToBankEnd makes the program end exactly at the end of its bank: a final label in front of a
+// final RTS (so the label sits on the bank's last byte, $xxFFFF), referenced by a jump and a branch,
+// and the base chosen accordingly. Returns nil if the history does not allow it.
+func flushToBankEnd(g *vf.Rng, calls []hcall, listing bool) []hcall {
+	for _, c := range calls {
+		if c.Op == "label" && c.S == "the_end" {
+			return nil
+		}
+	}
+	out := append([]hcall(nil), calls...)
+	out = append(out, hcall{Op: "ins", M: emByName["JMP_abs"], S: "the_end"})
+	if g.Bool() {
+		out = append(out, hcall{Op: "ins", M: emByName["BRA"], S: "the_end"})
+	}
+	out = append(out, hcall{Op: "label", S: "the_end"}, hcall{Op: "ins", M: emByName["RTS"]})
+	sh := newShadow(listing)
+	for _, c := range out {
+		if sh.legal(c) {
+			sh.apply(c)
+		}
+	}
+	size := len(sh.code)
+	if size >= 0x10000 {
+		return nil
+	}
+	base := uint32(g.Intn(256))<<16 | uint32(0x10000-size)
+	for i := range out {
+		if out[i].Op == "setbase" {
+			out[i].Arg = base
+			return out
+		}
+	}
+	return append([]hcall{{Op: "setbase", Arg: base}}, out...)
+}
+
 // genFarHistory builds a short program that spans almost a whole bank: a
 // label reference whose target is tens of thousands of bytes away (around the
 // +-32 KiB and +-64 KiB marks), with the base offset small enough to fit.
